@@ -334,12 +334,13 @@ def path_statements(stmts, assume):
             if isinstance(test.op, ast.And):
                 return False if False in ds else True if all(d is True for d in ds) else None
             return True if True in ds else False if all(d is False for d in ds) else None
-        if isinstance(test, ast.Compare) and len(test.ops) == 1 and isinstance(test.left, ast.Name) and test.left.id in assume \
+        if isinstance(test, ast.Compare) and len(test.ops) == 1 and isinstance(test.left, (ast.Name, ast.Attribute)) \
+                and ast.unparse(test.left) in assume \
                 and isinstance(test.comparators[0], ast.Constant) and test.comparators[0].value is None:
             if isinstance(test.ops[0], ast.Is):
-                return assume[test.left.id]
+                return assume[ast.unparse(test.left)]
             if isinstance(test.ops[0], ast.IsNot):
-                return not assume[test.left.id]
+                return not assume[ast.unparse(test.left)]
         return None
 
     def walk(block):
